@@ -16,14 +16,15 @@ CONSTANTS Slack,        \* one-sided allowance (ms) for upper time bounds
           RestoreSlack  \* "shortly after" the hook timeout (ms)
 
 VARIABLES l,    \* position of the next trace line
-          tp    \* number of lifecycle events of st.tel already matched
+          tp,   \* number of lifecycle events of st.tel already matched
+          fl    \* property flags of the scenario being explained
 
 TraceLog == ndJsonDeserialize("trace.ndjson")
 
 \* names the scenarios may use for extension files, in directory order (cfg: ExtOrder <- TraceExtOrder)
 TraceExtOrder == <<"e1", "e2", "e3", "e4", "e5", "e6", "e7", "e8", "e9", "f1", "f2">>
 
-tvars == <<st, l, tp>>
+tvars == <<st, l, tp, fl>>
 
 SetOf(seq) == {seq[i] : i \in DOMAIN seq}
 
@@ -153,7 +154,7 @@ TTerminate ==
 
 TKillCall ==
     /\ Is("KillCall")
-    /\ \/ /\ ShutKillRuntimeNowEn(st) /\ st.pcS.rtp = Proc(T) /\ st' = ShutKillRuntimeNowDo(st)
+    /\ \/ /\ ShutKillRuntimeNowEn(st) /\ st.pcS.rtp = Proc(T) /\ st' = [ShutKillRuntimeNowDo(st) EXCEPT !.pcS.treap = T.t]
        \* the runtime is killed only after 30% of the time that was available when TERM was sent
        \/ /\ ShutKillRuntimeLateEn(st) /\ st.pcS.rtp = Proc(T)
           /\ (st.pcS.dl > 0 => 10 * (T.t - st.pcS.tterm) >= 3 * (st.pcS.dl - st.pcS.tterm) - 30)
@@ -216,7 +217,14 @@ TRestoreRet ==
     /\ st' = RestoreReturnDo(st)
     /\ UNCHANGED tp /\ Adv
 
+THook ==
+    /\ Is("Hook")
+    /\ \/ T.ph = "enter" /\ HookEnterEn(st, T.point) /\ st' = HookEnterDo(st, T.point)
+       \/ T.ph = "leave" /\ HookLeaveEn(st, T.point) /\ st' = HookLeaveDo(st, T.point)
+    /\ UNCHANGED tp /\ Adv
+
 Observable ==
+    \/ THook
     \/ TRestoreCall \/ TRestoreRet
     \/ TBegin \/ TInitCall \/ TExec \/ TCall \/ TRet \/ TInvokeCall \/ TInvokeRet
     \/ TProcExit \/ TExitSend \/ TExitDelivered \/ TTerminate \/ TKillCall \/ TTel
@@ -276,14 +284,14 @@ Internal ==
        \/ Step(RestoreAwaitEn(st), RestoreAwaitDo(st))
        \/ Step(RestoreTimeoutEn(st) /\ NextT >= st.pcT.dl - 3 /\ (st.strictTimer => ~Urgent(st)), RestoreTimeoutDo(st))
        \/ Step(DriverShutdownLockEn(st), DriverShutdownLockDo(st, st.pcS.dl))
-       \/ Step(ShutBeginEn(st), ShutBeginDo(st))
+       \/ Step(ShutBeginEn(st), LET s2 == ShutBeginDo(st) IN IF s2.pcS.pc = "reap" THEN [s2 EXCEPT !.pcS.treap = PrevT] ELSE s2)
        \/ Step(ShutRuntimeExitedEn(st), ShutRuntimeExitedDo(st))
        \/ Step(ShutAgentsEn(st), ShutAgentsDo(st))
        \/ \E p \in st.pcS.todo : Step(ShutAgentExitedEn(st, p), ShutAgentExitedDo(st, p))
        \/ Step(ShutAgentsJoinedEn(st), [ShutAgentsJoinedDo(st) EXCEPT !.pcS.treap = PrevT])
        \/ Step(ShutReapedEn(st), ShutReapedDo(st))
-       \* the 2 s exit grace (only meaningful when the wait started in this step sequence: treap > 0)
-       \/ Step(ShutReapTimeoutEn(st) /\ (st.pcS.treap > 0 => NextT >= st.pcS.treap + 2000 - 5), ShutReapTimeoutDo(st))
+       \* the 2 s exit grace, counted from the moment the wait began (treap, stamped by every step that enters "reap")
+       \/ Step(ShutReapTimeoutEn(st) /\ NextT >= st.pcS.treap + 2000 - 5, ShutReapTimeoutDo(st))
        \/ \E p \in DOMAIN st.procs : Step(WatchRecvEn(st, p), WatchRecvDo(st, p))
        \/ Step(WatchHandleEn(st), WatchHandleDo(st))
        \/ Step(WatchCancelEn(st), WatchCancelDo(st))
@@ -292,16 +300,23 @@ Internal ==
             \/ Step(WakeEn(st, c), WakeDo(st, c))
             \/ Step(ReapEn(st, c), ReapDo(st, c))
 
-TraceInit == l = 1 /\ tp = 0 /\ st = State0({}, {}) /\ TLCSet(1, 1)
+TraceInit == l = 1 /\ tp = 0 /\ fl = [sid |-> "", set |-> {}] /\ st = State0({}, {}) /\ TLCSet(1, 1)
 
-TraceNext == Observable \/ Internal
+\* fl: [sid, set]: the properties (Rapid!PropHolds) that failed in some state of this behaviour since the
+\* scenario began; printed when the next scenario begins (every behaviour that gets there has explained the
+\* whole scenario) and when the whole trace is explained
+TraceNext ==
+    /\ Observable \/ Internal
+    /\ fl' = IF Is("Begin") /\ l' = l + 1 THEN [sid |-> T.sid, set |-> PropViolations(st')]
+             ELSE [fl EXCEPT !.set = @ \cup PropViolations(st')]
+    /\ (Is("Begin") /\ l' = l + 1) => PrintT(<<"flags", fl.sid, fl.set>>)
 
 TraceSpec == TraceInit /\ [][TraceNext]_tvars
 
 HighWater ==
     /\ IF l > TLCGet(1) THEN PrintT(<<"hw", l>>) /\ TLCSet(1, l) ELSE TRUE
     \* the whole trace is explained: stop the search
-    /\ IF l = Len(TraceLog) + 1 THEN TLCSet("exit", TRUE) ELSE TRUE
+    /\ IF l = Len(TraceLog) + 1 THEN PrintT(<<"flags", fl.sid, fl.set>>) /\ TLCSet("exit", TRUE) ELSE TRUE
 
 TraceAccepted ==
     IF TLCGet(1) = Len(TraceLog) + 1 THEN TRUE
